@@ -105,6 +105,11 @@ pub fn enc_dhcp(d: &Dhcp) -> Vec<u8> {
     v[28..34].copy_from_slice(&d.chaddr);
     v[236..240].copy_from_slice(&[99, 130, 83, 99]);
     for (c, data) in &d.options {
+        // (code 0 with no data: a pad octet, which has no length octet)
+        if *c == 0 && data.is_empty() {
+            v.push(0);
+            continue;
+        }
         v.push(*c);
         v.push(data.len() as u8);
         v.extend_from_slice(data);
